@@ -1383,10 +1383,15 @@ func (enc *VP8Encoder) EncodeFrame() ([]byte, error) {
 		// Serial path: collect stats separately (not merged into encodeFrame).
 		enc.collectAllStats(&stats)
 	}
-	if optimizeProba(&stats, &enc.proba) > 0 {
-		// Re-record tokens with optimized probabilities.
-		enc.rerecordAllTokens()
-	}
+	optimizeProba(&stats, &enc.proba)
+	// Re-record tokens with the final probabilities. This must not depend on
+	// whether this last optimizeProba call changed anything: tokens carry the
+	// probability value they were recorded with, and the mid-stream refreshes
+	// (refreshProbas) may already have modified enc.proba after the first
+	// macroblocks were recorded. The table written by writeCoeffProba is the
+	// final one, so every token has to be coded with it, like C libwebp's
+	// VP8EmitTokens which resolves all probabilities against the final table.
+	enc.rerecordAllTokens()
 
 	// Emit the VP8 bitstream.
 	frameData, err := enc.emitFrame()
